@@ -32,4 +32,10 @@ def demuxComb : List (String × List String × List (String × List String)) := 
   ("discard", ["a-x.1", "a-x.2", "a-y.1", "a-y.2", "b-x.1", "b-x.2", "b-y.1", "b-y.2"], [("q11", ["a-x.1", "a-x.2"]), ("q12", ["a-y.1", "a-y.2"]), ("q20", []), ("q01", []), ("q00", [])])
 ]
 
+/-- paired-end `{name}` with adapters for R2 only (x=S3, y=S1), the same probe pairs -/
+def demuxR2Only : List (String × List String × List (String × List String)) := [
+  ("plain", ["unknown.1", "unknown.2"], [("q11", ["unknown.1", "unknown.2"]), ("q12", ["unknown.1", "unknown.2"]), ("q20", ["unknown.1", "unknown.2"]), ("q01", ["unknown.1", "unknown.2"]), ("q00", ["unknown.1", "unknown.2"])]),
+  ("discard", [], [("q11", []), ("q12", []), ("q20", []), ("q01", []), ("q00", [])])
+]
+
 end Cutadapt.Generated
